@@ -431,8 +431,10 @@ def run_c12(ck):
                              {"lemma": failing, "file": "build/work/Run/C12_%s.v" % mod})
         for mod in ("GenCpu65", "GenCpuAlt"):
             cbinfo, rc, out, dt, fname = cb_res.get(mod, ({}, 1, "not run", 0.0, ""))
-            m = re.search(r"\(in proof (\w+)\)", out)
-            failing = m.group(1) if m else (out[-700:] if rc != 0 else "")
+            failing = ""
+            if rc != 0:
+                failing = cpucb.failing_lemma(os.path.join(vlib.RUN, fname + ".v"), out) or "x"
+                failing += " " + " ".join(out[-500:].split())
             cb_ok = cb_ok and rc == 0
             ck.oblige("Theorem C12_callbacks_%s : forall s, Inv (Bty fwidth) s -> forall r s', Step s = Ok r s' -> callbacks_clause f_PPC f_PRK f_WDM s s'  "
                       "[registrations unchanged; with a = PRK'*65536+PPC': cbs (trace s') = wdm ++ pc ++ cbs (trace s), pc = [EvPC a] iff onpc s a, wdm = [EvWDM v] iff onwdm s and opcode = $42; "
@@ -515,6 +517,19 @@ def run_c12(ck):
                                                             "how": "harness cbclause -seed %d -n %d -case %s -fields ..." % (sd, ncb, mm.group(1) if mm else "?")})
         ck.cov["callbacks_falsifier"] = cbstats
         ck.cov["traces_validated_against_impl"] = ck.cov.get("traces_validated_against_impl", 0) + cbstats.get("cb_steps", 0)
+    if models:
+        srcs = [os.path.join(vlib.COQ, "Props", "CbLib.v")] + [os.path.join(vlib.RUN, "C12_%s_%s.v" % (k, m)) for k in ("cbq", "cbs", "cb") for m in ("GenCpu65", "GenCpuAlt")]
+        hyg = []
+        for f in srcs:
+            try:
+                txt = re.sub(r"\(\*.*?\*\)", "", open(f).read(), flags=re.S)
+            except OSError:
+                hyg.append(f + ": missing")
+                continue
+            hyg += ["%s: %s" % (os.path.basename(f), w) for w in re.findall(r"\b(Axiom|Parameter|Conjecture|Admitted|admit|Unset Guard Checking|Unset Universe Checking)\b", txt)]
+        fresh = vlib.static_vo_fresh(os.path.join(vlib.RUN, "C12_cb_GenCpu65.v"))
+        ck.oblige("callbacks clause: static Props/CbLib.vo is fresh; no Axiom/Parameter/Conjecture/Admitted/admit/guard switches in Props/CbLib.v and the generated C12_cb*.v", not hyg and fresh,
+                  "; ".join(hyg) or "stale static library: run ./check --setup")
     if cb_broken and not ck.violations:
         mod, fname, failing = cb_broken[0]
         ck.violation("C12.theorem.callbacks.%s.%s" % (mod, failing.split()[0] if failing else "x"), "broken-theorem",
